@@ -191,6 +191,9 @@ def exc_code(e: BaseException) -> int:
         (ex.MissingSymbolError, 104), (ex.InitialStateError, 105), (ex.FinalStateError, 106),
         (ex.LexerError, 111), (ex.InvalidRegexError, 110),
     ]
+    import automata.pda.exceptions as pda_ex
+
+    table += [(pda_ex.NondeterminismError, 120), (pda_ex.InvalidAcceptanceModeError, 121)]
     for cls, code in table:
         if isinstance(e, cls):
             return code
